@@ -764,6 +764,21 @@ def check_generic(log):
                 add("C09", "scheduler_spins", steps=e["steps"], limit=e["limit"])
             elif e["kind"] == "DEADLOCK":
                 add("C09", "deadlock_wait_on_nothing_that_can_finish", wkind=e["wkind"], futs=e["futs"])
+        # the caller's context: functions of main-thread and async-thread nodes run in (a copy of) the context of the client
+        # operation that started the execution (thread-resource nodes are handed to the pool without one - not judged)
+        op = None
+        for e in log:
+            if e["kind"] == "OP_BEGIN" and e["thread"] == sched_thread and e["seq"] < pool["seq"] and e.get("req") is not None:
+                op = e
+        if op is not None:
+            for e in evs:
+                if e["kind"] == "FENTER" and "ctx" in e and meta.get(e.get("node"), {}).get("res") in ("main-thread", "async-thread"):
+                    st["generic_context_checks"] += 1
+                    if e["ctx"] != op["req"]:
+                        for prop in ("C01", "C17"):
+                            add(prop, "node_function_does_not_see_the_callers_context", node=e["node"], resource=meta[e["node"]]["res"],
+                                seen=e["ctx"], callers=op["req"])
+                        break
         for x, c in count.items():
             st["generic_c03_nodes"] += 1
             if c > 1:
